@@ -148,7 +148,7 @@ CONFIG = {
         "assumptions": ["spans are opaque byte ranges; syn::Error conversion observed through syn::Error::into_iter"],
     },
     "C06": {
-        "lean_modules": ["Darling.Props.C06"],
+        "lean_modules": ["Darling.Props.C06", "Darling.Props.C06Derive"],
         "streams": [
             {"name": "c06", "n": {"quick": 5000, "thorough": 100000}, "trivial": lambda case, ans: False},
             {"name": "c10", "n": {"quick": 1000, "thorough": 1000}, "trivial": lambda case, ans: False},
